@@ -615,7 +615,7 @@ class Ceremony:
         except Exception:
             return
         kind = ch.pick('wire', ['sig_hashtype', 'sig_hashtype', 'sig_der_byte', 'pubkey_byte', 'out_value', 'sequence',
-                                'locktime'])
+                                'locktime', 'outpoint_zero_txid', 'outpoint_index', 'version'])
         w.op('tamper_wire', cid=c.cid, field=kind)
 
         def is_sig(b):
@@ -673,6 +673,16 @@ class Ceremony:
             done = True
         elif kind == 'locktime':
             rt.locktime = (rt.locktime + 1) & 0xffffffff
+            done = True
+        elif kind == 'outpoint_zero_txid':
+            rt.vin[ch.index('w_in', len(rt.vin))].prev_txid = b'\0' * 32
+            done = True
+        elif kind == 'outpoint_index':
+            vin = rt.vin[ch.index('w_in', len(rt.vin))]
+            vin.vout = (vin.vout + 1) & 0xffffffff
+            done = True
+        elif kind == 'version':
+            rt.version = 1 if rt.version != 1 else 2
             done = True
         if not done:
             w.outcome('tamper_skipped')
